@@ -694,6 +694,10 @@ class AutonomousStateMachine(StateMachine):
 
     def on_enable(self) -> None:
         super().on_enable()
+        # every autonomous period starts from the first state, also when the
+        # previous one was not ended with on_disable() or left a state selected
+        if self.is_executing or self.current_state:
+            self.done()
         self.__engaged = True
 
     def on_iteration(self, tm: float) -> None:
